@@ -995,3 +995,8 @@ mod tests {
         }
     }
 }
+
+// verification hook (add-only, inert unless built by `cargo kani`, which sets --cfg kani)
+#[cfg(kani)]
+#[path = "/verif/kani/literal_data_harness.rs"]
+mod verif_kani;
